@@ -77,7 +77,7 @@ func (m *mergeCtx) ps5Tolerant() {
 	}
 	n := 0
 	var bad []string
-	for _, b := range ad.Blocks {
+	for _, b := range m.adoptBlocks() {
 		for _, in := range b.Instrs {
 			c, ok := in.(*ssa.Call)
 			if !ok || !core.StaticCalleeIs(c.Common(), "os.Remove") {
